@@ -9,6 +9,18 @@ BASELINE = ("cd /repo && env -u GSCRIB_VERIF /venv/bin/python -m pytest -ra -q -
 
 # id -> (technique, level text, level note, design ref)
 CLAIMED = {
+    "C07": (
+        "Lean 4 invariant proof (Mirror between the Builder model and an independent modal interpreter, 17 clauses, per command "
+        "and by induction over every prefix of every history) + differential correspondence over the full API",
+        "Proof: C07_mirror_init, C07_mirror_step, C07_mirror_run: after every call of every history, tool flag / start code / "
+        "power, coolant, tool number, feed rate, distance/extrusion/feed modes, units, plane, the three target temperatures and "
+        "the last value of every move parameter reported by the state equal what a modal interpreter derives from the emitted "
+        "statements. Correspondence compares every public state property after every call; a Python modal interpreter replays "
+        "the real output.",
+        "Trusted: as C02. F/S modal on motion, probe, tool-start and bare-word statements; power compared while the tool runs "
+        "(the builder zeroes its figure on M05); X/Y/Z excluded from move parameters (C01).",
+        "DESIGN.md section 7 / C07",
+    ),
     "C01": (
         "Lean 4 invariant proof (Agree between the Builder model and an independent position machine, per command and by "
         "induction over every prefix of every history) + differential correspondence incl. all tracer shapes driven through "
